@@ -11,6 +11,7 @@ from vlib import matchlib as ML
 from vlib import mgrlib as MG
 from vlib import ref_ap as RA
 from vlib import ref_clear as RC
+from vlib import scorelib as SL
 from vlib.harness import Check, PropertyViolation
 
 CHECK = Check(
@@ -100,40 +101,6 @@ def do_add(ctx, mgr, pool, d, op, frame):
     return res, ests, pool[i]
 
 
-def _weights(results, label, targets, policy, mode, thr):
-    """(AP weights, APH weights, confidences) of the pooled bucket in descending-confidence (stable) order."""
-    from perception_eval.evaluation.metrics.detection.tp_metrics import TPMetricsAph
-
-    dist = mode in ("CENTERDISTANCE", "PLANEDISTANCE")
-    order = sorted(range(len(results)), key=lambda i: -results[i].estimated_object.semantic_score)
-    w, wh, conf = [], [], []
-    for i in order:
-        r = results[i]
-        el = r.estimated_object.semantic_label.label.value
-        g = r.ground_truth_object
-        gl = None if g is None else g.semantic_label.label.value
-        key = gl if g is not None else el
-        ok = False
-        if key == label and g is not None:
-            s = float(r.get_matching(D.mode(mode)).value)
-            ok = ML.compatible(policy, el, gl) and (s < thr if dist else s > thr)
-        w.append(1 if ok else 0)
-        wh.append(float(TPMetricsAph().get_value(r)) if ok else 0.0)
-        conf.append(r.estimated_object.semantic_score)
-    return w, wh, conf
-
-
-def _bucket(results, label, targets):
-    out = []
-    for r in results:
-        el = r.estimated_object.semantic_label.label.value
-        g = r.ground_truth_object
-        gl = None if g is None else g.semantic_label.label.value
-        if el == label or (el not in targets and gl == label):
-            out.append(r)
-    return out
-
-
 def check_scene(ctx, st_):
     from checks import c05
 
@@ -147,26 +114,7 @@ def check_scene(ctx, st_):
     frs = mgr.frame_results
     exp_gt = sum(1 for fr in frs for g in fr.frame_ground_truth.objects if g.semantic_label.label.value in targets)
     ctx.require(scene.num_ground_truth == exp_gt, "scene-num-gt", lambda: f"scene num_ground_truth {scene.num_ground_truth} but the evaluated frames hold {exp_gt} critical target-labelled GTs")
-    distinct_conf = True
-    for m in scene.maps:
-        mode = m.matching_mode.name
-        for L, ap, aph, thr in zip(targets, m.aps, m.aphs, m.matching_threshold_list):
-            pooled = [r for fr in frs for r in _bucket(fr.object_results, L, targets)]
-            ngt = sum(1 for fr in frs for g in fr.frame_ground_truth.objects if g.semantic_label.label.value == L)
-            w, wh, conf = _weights(pooled, L, targets, pol, mode, thr)
-            if len(set(conf)) < len(conf):
-                distinct_conf = False
-            r_ap = RA.interpolated_ap(w, ngt) if (ngt > 0 or sum(w) == 0) else None
-            if not pooled:
-                ctx.require(ap.ap == float("inf"), "scene-ap-undefined", lambda: f"{mode} {L}: AP {ap.ap} for an empty pooled bucket")
-                continue
-            ctx.require(ap.num_ground_truth == ngt and ap.objects_results_num == len(pooled), "scene-pool-size", lambda: f"{mode} {L}: pooled {ap.objects_results_num} results / {ap.num_ground_truth} GT, frames hold {len(pooled)} / {ngt}")
-            if r_ap is not None:
-                ctx.require(abs(ap.ap - float(r_ap)) <= TOL, "scene-ap", lambda: f"{mode} {L} thr {thr}: scene AP {ap.ap} vs AP of the pooled frame results {float(r_ap)}")
-                from fractions import Fraction
-
-                r_aph = RA.interpolated_ap([Fraction(x).limit_denominator(10**12) for x in wh], ngt)
-                ctx.require(abs(aph.ap - float(r_aph)) <= 1e-7, "scene-aph", lambda: f"{mode} {L}: scene APH {aph.ap} vs pooled {float(r_aph)}")
+    distinct_conf = SL.check_maps(ctx, scene.maps, frs, targets, pol, "scene")
     for ts in scene.tracking_scores:
         mode = ts.matching_mode.name
         for L, clear in zip(targets, ts.clears):
